@@ -250,4 +250,304 @@ example : getMatchForGate
      ⟨"RX", [], [⟨2, .other 1⟩], [.fixed 0], 3⟩]
     ⟨"RX", [], [⟨3, .other 0⟩], [.fixed 0]⟩ = some 2 := by decide
 
+/-! ## Measurement lookup -/
+
+/-- the brute-force checker decides the declarative measurement-matching relation -/
+theorem measMatchesB_iff (c : MCal) (m : Meas) : measMatchesB c m = true ↔ MeasMatches c m := by
+  unfold measMatchesB MeasMatches
+  cases hq : c.qubit <;> simp <;> grind
+
+/-- **C16 (measurement lookup)**: for every list of measurement calibrations and every measurement,
+`get_match_for_measurement` returns the position singled out by the rule "name and record/effect kind
+agree; an exact fixed-qubit definition beats a variable one; among equals the later wins", and nothing
+exactly when no definition matches. -/
+theorem getMatchForMeasurement_spec (cs : List MCal) (m : Meas) :
+    MeasLookupSpec cs m (getMatchForMeasurement cs m) := by
+  unfold getMatchForMeasurement
+  simp only [measScan_eq, Option.none_or]
+  have hE := fi_lastOf m true cs
+  have hW := fi_lastOf m false cs
+  generalize fi m true cs.zipIdx.reverse = e at hE
+  generalize fi m false cs.zipIdx.reverse = w at hW
+  have classOf : ∀ d, MeasMatches d m → measClass m d = some true ∨ measClass m d = some false := by
+    intro d hd
+    by_cases h : exactRank d = 1
+    · left; exact (measClass_iff m d true).mpr ⟨hd, by simpa using h⟩
+    · right; refine (measClass_iff m d false).mpr ⟨hd, ?_⟩
+      have : exactRank d = 0 ∨ exactRank d = 1 := by unfold exactRank; cases d.qubit <;> simp
+      simpa using this.resolve_right h
+  match e, hE with
+  | some i, ⟨c, hc, hcl, hlast⟩ =>
+    obtain ⟨hm, hr⟩ := (measClass_iff m c true).mp hcl
+    refine ⟨c, hc, hm, ?_⟩
+    intro j d hj hd
+    rcases classOf d hd with h | h
+    · right; exact ⟨by rw [((measClass_iff m d true).mp h).2, hr], hlast j d hj h⟩
+    · left; rw [((measClass_iff m d false).mp h).2, hr]; simp
+  | none, hE =>
+    match w, hW with
+    | some i, ⟨c, hc, hcl, hlast⟩ =>
+      obtain ⟨hm, hr⟩ := (measClass_iff m c false).mp hcl
+      refine ⟨c, hc, hm, ?_⟩
+      intro j d hj hd
+      rcases classOf d hd with h | h
+      · exact absurd h (hE j d hj)
+      · right; exact ⟨by rw [((measClass_iff m d false).mp h).2, hr], hlast j d hj h⟩
+    | none, hW =>
+      intro j d hj hd
+      rcases classOf d hd with h | h
+      · exact hE j d hj h
+      · exact hW j d hj h
+
+theorem measWinner_unique (cs : List MCal) (m : Meas) (i j : Nat)
+    (hi : IsMeasWinner cs m i) (hj : IsMeasWinner cs m j) : i = j := by
+  obtain ⟨c, hc, hmc, hbc⟩ := hi
+  obtain ⟨d, hd, hmd, hbd⟩ := hj
+  have h1 := hbc j d hd hmd
+  have h2 := hbd i c hc hmc
+  omega
+
+/-- **C16 (measurement lookup, as an equivalence)** -/
+theorem getMatchForMeasurement_iff (cs : List MCal) (m : Meas) (o : Option Nat) :
+    MeasLookupSpec cs m o ↔ getMatchForMeasurement cs m = o := by
+  have hs := getMatchForMeasurement_spec cs m
+  constructor
+  · intro ho
+    match o, hm : getMatchForMeasurement cs m, ho, hs with
+    | some i, some j, ho, hs => rw [measWinner_unique cs m i j ho hs]
+    | none, none, _, _ => rfl
+    | some i, none, ho, hs =>
+      obtain ⟨c, hc, hmc, _⟩ := ho
+      exact absurd hmc (hs i c hc)
+    | none, some j, ho, hs =>
+      obtain ⟨c, hc, hmc, _⟩ := hs
+      exact absurd hmc (ho j c hc)
+  · intro h; rw [← h]; exact hs
+
+theorem getMatchForMeasurement_none_iff (cs : List MCal) (m : Meas) :
+    getMatchForMeasurement cs m = none ↔ ∀ c ∈ cs, ¬ MeasMatches c m := by
+  rw [← getMatchForMeasurement_iff]
+  simp only [MeasLookupSpec]
+  constructor
+  · intro h c hc
+    obtain ⟨j, hj, rfl⟩ := List.getElem_of_mem hc
+    exact h j _ (List.getElem?_eq_getElem hj)
+  · intro h j d hj
+    exact h d (List.mem_of_getElem? hj)
+
+theorem measLookupSpecB_iff (cs : List MCal) (m : Meas) (o : Option Nat) :
+    measLookupSpecB cs m o = true ↔ MeasLookupSpec cs m o := by
+  have hget : ∀ (j : Nat) d, cs[j]? = some d → j < cs.length :=
+    fun j d h => (List.getElem?_eq_some_iff.mp h).1
+  cases o with
+  | none =>
+    simp only [measLookupSpecB, MeasLookupSpec, range_all_iff]
+    constructor
+    · intro h j d hj
+      have := h j (hget j d hj)
+      simp only [hj, Bool.not_eq_eq_eq_not, Bool.not_true] at this
+      intro hm; rw [(measMatchesB_iff d m).mpr hm] at this; cases this
+    · intro h j hj
+      simp only [List.getElem?_eq_getElem hj]
+      have := h j _ (List.getElem?_eq_getElem hj)
+      simpa [← measMatchesB_iff] using this
+  | some i =>
+    simp only [measLookupSpecB, MeasLookupSpec, IsMeasWinner]
+    cases hc : cs[i]? with
+    | none => simp
+    | some c =>
+      simp only [Bool.and_eq_true, range_all_iff, measMatchesB_iff]
+      constructor
+      · rintro ⟨hm, hall⟩
+        refine ⟨c, rfl, hm, ?_⟩
+        intro j d hj hd
+        have := hall j (hget j d hj)
+        simp only [hj, (measMatchesB_iff d m).mpr hd, Bool.not_true, Bool.false_or, Bool.or_eq_true,
+          decide_eq_true_eq, Bool.and_eq_true, beq_iff_eq] at this
+        exact this
+      · rintro ⟨c', hc', hm, hall⟩
+        cases hc'
+        refine ⟨hm, ?_⟩
+        intro j hj
+        simp only [List.getElem?_eq_getElem hj]
+        by_cases hd : MeasMatches cs[j] m
+        · have := hall j _ (List.getElem?_eq_getElem hj) hd
+          simp only [(measMatchesB_iff _ m).mpr hd, Bool.not_true, Bool.false_or, Bool.or_eq_true,
+            decide_eq_true_eq, Bool.and_eq_true, beq_iff_eq]
+          exact this
+        · have : measMatchesB cs[j] m = false := by
+            cases hb : measMatchesB cs[j] m with
+            | false => rfl
+            | true => exact absurd ((measMatchesB_iff _ m).mp hb) hd
+          simp [this]
+
+/-- non-vacuity (the "Precedence-Fixed-Match" snapshot of the test-suite): the later `DEFCAL MEASURE 0 addr`
+wins over the earlier one, over the variable-qubit definition that follows it, over the wrong-qubit one
+and over the measure-for-effect one -/
+example : getMatchForMeasurement
+    [⟨none, .variable "q", none, 0⟩, ⟨none, .variable "b", some "addr", 1⟩,
+     ⟨none, .fixed 0, some "addr", 2⟩, ⟨none, .fixed 0, some "other", 3⟩,
+     ⟨none, .variable "q", some "addr", 4⟩, ⟨none, .fixed 1, some "addr", 5⟩]
+    ⟨none, .fixed 0, some ("ro", 0)⟩ = some 3 := by decide
+
+/-! ## Insertion into a `CalibrationSet`
+
+`sig` is the signature function (`Cal.sig` / `MCal.sig` below; the theorems hold for any). -/
+
+section Set
+variable {α σ : Type} [DecidableEq σ] (sig : α → σ)
+
+/-- **C16 (redefinition)**: when the set already holds a definition with `v`'s signature, `replace` stores
+`v` at the position of the first such definition (under `NoDupSig`: the only one), returns the old one and
+changes nothing else (`List.set`): length and all other positions are kept. -/
+theorem replace_in_place (cs : List α) (v : α) (h : ∃ c ∈ cs, sig c = sig v) :
+    ∃ i old, cs[i]? = some old ∧ sig old = sig v ∧
+      (∀ (j : Nat) d, j < i → cs[j]? = some d → sig d ≠ sig v) ∧
+      replace sig cs v = (cs.set i v, some old) := by
+  cases hp : sigPos sig (sig v) cs with
+  | none =>
+    obtain ⟨c, hc, hs⟩ := h
+    exact absurd hs ((sigPos_none_iff sig _ cs).mp hp c hc)
+  | some i =>
+    obtain ⟨old, ho, hs, hf⟩ := sigPos_some sig _ cs i hp
+    exact ⟨i, old, ho, hs, hf, by simp [replace, hp, ho]⟩
+
+/-- when no definition has `v`'s signature, `replace` appends `v` -/
+theorem replace_append (cs : List α) (v : α) (h : ∀ c ∈ cs, sig c ≠ sig v) :
+    replace sig cs v = (cs ++ [v], none) := by
+  simp [replace, (sigPos_none_iff sig _ cs).mpr h]
+
+theorem replace_eq_map (cs : List α) (v : α) (hnd : NoDupSig sig cs) (h : ∃ c ∈ cs, sig c = sig v) :
+    (replace sig cs v).1 = cs.map (upd sig v) := by
+  cases hp : sigPos sig (sig v) cs with
+  | none =>
+    obtain ⟨c, hc, hs⟩ := h
+    exact absurd hs ((sigPos_none_iff sig _ cs).mp hp c hc)
+  | some i => simp [replace, hp, set_eq_map_upd sig v cs i hnd hp]
+
+/-- **C16 (redefinition, declaratively)**: on a duplicate-free set, `replace` satisfies the pointwise
+insertion specification -/
+theorem replace_insertSpec (cs : List α) (v : α) (hnd : NoDupSig sig cs) :
+    InsertSpec sig cs v (replace sig cs v).1 := by
+  constructor
+  · intro h
+    rw [replace_eq_map sig cs v hnd h]
+    refine ⟨by simp, ?_⟩
+    intro j c hj
+    simp [hj, upd]
+  · intro h; rw [replace_append sig cs v h]
+
+theorem replace_noDupSig (cs : List α) (v : α) (hnd : NoDupSig sig cs) :
+    NoDupSig sig (replace sig cs v).1 := by
+  by_cases h : ∃ c ∈ cs, sig c = sig v
+  · rw [replace_eq_map sig cs v hnd h]; exact noDupSig_map_upd sig v cs hnd
+  · have h' : ∀ c ∈ cs, sig c ≠ sig v := fun c hc hs => h ⟨c, hc, hs⟩
+    rw [replace_append sig cs v h']
+    unfold NoDupSig at *
+    rw [List.pairwise_append]
+    refine ⟨hnd, by simp, ?_⟩
+    intro a ha b hb
+    simp at hb; subst hb
+    exact h' a ha
+
+theorem remove_noDupSig (cs : List α) (s : σ) (hnd : NoDupSig sig cs) :
+    NoDupSig sig (remove sig cs s).1 := by
+  unfold remove
+  cases sigPos sig s cs with
+  | none => exact hnd
+  | some i => exact List.Pairwise.sublist (List.eraseIdx_sublist cs i) hnd
+
+theorem extend_noDupSig (cs vs : List α) (hnd : NoDupSig sig cs) :
+    NoDupSig sig (extend sig cs vs) := by
+  induction vs generalizing cs with
+  | nil => exact hnd
+  | cons v vs ih => exact ih _ (replace_noDupSig sig cs v hnd)
+
+theorem run_noDupSig (cs : List α) (ops : List (Op α σ)) (hnd : NoDupSig sig cs) :
+    NoDupSig sig (run sig cs ops) := by
+  induction ops generalizing cs with
+  | nil => exact hnd
+  | cons o os ih =>
+    apply ih
+    cases o with
+    | insert v => exact replace_noDupSig sig cs v hnd
+    | remove s => exact remove_noDupSig sig cs s hnd
+    | extend vs => exact extend_noDupSig sig cs vs hnd
+
+/-- **C16 (invariant)**: whatever sequence of `insert` / `remove` / `extend` built a set from the empty set,
+no two of its elements have the same signature -/
+theorem history_noDupSig (ops : List (Op α σ)) : NoDupSig sig (run sig [] ops) :=
+  run_noDupSig sig [] ops List.Pairwise.nil
+
+theorem noDupSigB_iff (cs : List α) : noDupSigB sig cs = true ↔ NoDupSig sig cs := by
+  unfold noDupSigB NoDupSig
+  rw [List.pairwise_iff_getElem]
+  simp only [range_all_iff]
+  constructor
+  · intro h i j hi hj hij
+    have := h i hi j hj
+    simp only [List.getElem?_eq_getElem hi, List.getElem?_eq_getElem hj, Bool.or_eq_true, beq_iff_eq,
+      decide_eq_true_eq] at this
+    rcases this with e | e
+    · omega
+    · exact e
+  · intro h i hi j hj
+    simp only [List.getElem?_eq_getElem hi, List.getElem?_eq_getElem hj, Bool.or_eq_true, beq_iff_eq,
+      decide_eq_true_eq]
+    by_cases e : i = j
+    · left; exact e
+    · right
+      rcases Nat.lt_or_gt_of_ne e with l | l
+      · exact h i j hi hj l
+      · exact fun q => h j i hj hi l q.symm
+
+theorem insertSpecB_iff [DecidableEq α] (cs : List α) (v : α) (res : List α) :
+    insertSpecB sig cs v res = true ↔ InsertSpec sig cs v res := by
+  unfold insertSpecB InsertSpec
+  by_cases h : ∃ c ∈ cs, sig c = sig v
+  · have hany : cs.any (fun c => decide (sig c = sig v)) = true := by simpa using h
+    have hno : ¬ ∀ c ∈ cs, sig c ≠ sig v := by
+      obtain ⟨c, hc, hs⟩ := h; exact fun q => q c hc hs
+    simp only [hany, if_true, Bool.and_eq_true, beq_iff_eq, range_all_iff, h, true_implies, hno,
+      false_implies, and_true]
+    constructor
+    · rintro ⟨hl, hall⟩
+      refine ⟨hl, ?_⟩
+      intro j c hj
+      have hjl : j < cs.length := (List.getElem?_eq_some_iff.mp hj).1
+      have := hall j hjl
+      rw [hj, List.getElem?_eq_getElem (hl ▸ hjl)] at this
+      simp only [beq_iff_eq] at this
+      rw [List.getElem?_eq_getElem (hl ▸ hjl), this]
+    · rintro ⟨hl, hall⟩
+      refine ⟨hl, ?_⟩
+      intro j hjl
+      have := hall j _ (List.getElem?_eq_getElem hjl)
+      rw [List.getElem?_eq_getElem hjl, this]
+      simp
+  · have h' : ∀ c ∈ cs, sig c ≠ sig v := fun c hc hs => h ⟨c, hc, hs⟩
+    have hany : cs.any (fun c => decide (sig c = sig v)) = false := by
+      simpa using h'
+    simp [hany, h]
+    exact Or.inl h'
+
+end Set
+
+/-- the invariant and the insertion specification for the two concrete sets of `Calibrations` -/
+theorem calibrations_history (ops : List (Op Cal _)) (mops : List (Op MCal _)) :
+    NoDupSig Cal.sig (run Cal.sig [] ops) ∧ NoDupSig MCal.sig (run MCal.sig [] mops) :=
+  ⟨history_noDupSig _ ops, history_noDupSig _ mops⟩
+
+theorem calibrations_insert (ops : List (Op Cal _)) (v : Cal) :
+    InsertSpec Cal.sig (run Cal.sig [] ops) v (replace Cal.sig (run Cal.sig [] ops) v).1 :=
+  replace_insertSpec _ _ v (history_noDupSig _ ops)
+
+/-- non-vacuity: redefining `RX(%t) 0` (body 1 → body 9) keeps position 1 of 3 -/
+example : (replace Cal.sig
+    [⟨"RX", [], [⟨0, .variable⟩], [.variable "q"], 0⟩, ⟨"RX", [], [⟨0, .variable⟩], [.fixed 0], 1⟩,
+     ⟨"RX", [], [⟨1, .other 0⟩], [.fixed 0], 2⟩]
+    ⟨"RX", [], [⟨0, .variable⟩], [.fixed 0], 9⟩).1 =
+    [⟨"RX", [], [⟨0, .variable⟩], [.variable "q"], 0⟩, ⟨"RX", [], [⟨0, .variable⟩], [.fixed 0], 9⟩,
+     ⟨"RX", [], [⟨1, .other 0⟩], [.fixed 0], 2⟩] := by decide
+
 end QV.C16
